@@ -4,7 +4,7 @@
 From Coq Require Import ZArith List Bool.
 Import ListNotations.
 Require Import Grist.Model.ActionLog Grist.Model.ActionLogEnc Grist.Proofs.ActionLog_proofs Grist.Proofs.ActionLog_calc
-  Grist.Proofs.ActionLogEnc_laws Grist.Props.C01.
+  Grist.Proofs.ActionLog_stage3 Grist.Proofs.ActionLogEnc_laws Grist.Props.C01.
 Open Scope Z_scope.
 
 (* Full statement, for a class `wf_events` of event lists: after the bundle has been undone, replaying its
@@ -58,6 +58,30 @@ Example C03_docs_calcs_nonvacuous :
     o_stored ZOps out = [AddColumn ZOps nT nF ciFormula; BulkAddRecord ZOps nT [3] [(nA, [30])];
                          BulkUpdateRecord ZOps nT [1] [(nA, [11])];
                          BulkUpdateRecord ZOps nT [1; 2; 3] [(nF, [12; 20; 30])]] /\
+    replay_doc ZOps (rev (o_undo ZOps out)) s' = Ok s0 /\
+    replay_doc ZOps (o_stored ZOps out) s0 = Ok s1 /\ view ZOps s1 = view ZOps s'.
+Proof.
+  split; [vm_compute; reflexivity|]. eexists. eexists. eexists. eexists.
+  split; [vm_compute; reflexivity|]. split; [reflexivity|]. split; [vm_compute; reflexivity|].
+  split; vm_compute; reflexivity.
+Qed.
+
+(* Stage 3, first increment (see C01_undo_restores_calc_then_rename_partial): calc deltas interleaved with RenameColumn
+   and RenameTable after the leading doc actions.  The stored list is the doc actions followed by the updates of the
+   flush under the latest names; replayed on the undone document it reproduces the post-bundle document. *)
+Theorem C03_redo_calc_then_rename_partial : forall O, ValLaws O -> C03_statement O (docs_calcs_renames O).
+Proof. intros O L s es s' out s0 _ Hok H Hu. exact (bundle_ok3_redo O L s es s' out s0 Hok H Hu). Qed.
+
+Theorem C03_redo_calc_then_rename_encoded_partial : forall tt, tt_ok tt = true ->
+  C03_statement (EOps tt) (docs_calcs_renames (EOps tt)).
+Proof. intros tt H. apply C03_redo_calc_then_rename_partial. apply EOps_laws. exact H. Qed.
+
+Example C03_calc_then_rename_nonvacuous :
+  bundle_ok3 ZOps ex3_state ex5_events = true /\
+  exists s' out s0 s1,
+    run ZOps ex3_state ex5_events = Ok (s', out) /\
+    o_stored ZOps out = [BulkUpdateRecord ZOps nT [1] [(nA, [11])]; RenameColumn ZOps nT nF [71];
+                         RenameTable ZOps nT [85]; BulkUpdateRecord ZOps [85] [1; 2] [([71], [11; 21])]] /\
     replay_doc ZOps (rev (o_undo ZOps out)) s' = Ok s0 /\
     replay_doc ZOps (o_stored ZOps out) s0 = Ok s1 /\ view ZOps s1 = view ZOps s'.
 Proof.
